@@ -373,7 +373,8 @@ CHECKS = {
         "level_text": "exploration: generated schemas x histories x monitor configurations x establishment points x reply/notification order, whole-cache comparison after every step",
         "level_note": "the window order is forced through the verif hook monitor:reply; every other ordering is whatever the two goroutines do",
         "technique": "property-based testing (rapid): stateful wire-level histories with a harness-owned pause point, cache-vs-database oracle",
-        "tests": [{"name": "TestC01", "quick": 3000, "thorough": 60000}],
+        "tests": [{"name": "TestC01", "quick": 3000, "thorough": 60000},
+                  {"name": "TestC01Long", "kind": "plain", "quick": 1, "thorough": 1, "shards": {"quick": 1, "thorough": 1}}],
     },
     "C07": {
         "rule": "TestC07 (wire): 2-4 raw JSON-RPC peers (no libovsdb client code) register monitors after a drawn prefix of the history: every "
